@@ -107,8 +107,8 @@ def r2(prog, run):
     fn = prog.fn(IQM + '::handleStanza')
     sinks = [i for i, n in fn.calls() if (fn.sym(n) or {}).get('name') == 'finish' and 'QXmppPromise' in ((fn.sym(n) or {}).get('record') or '')]
     sinks += [i for i, n in fn.calls() if (fn.sym(n) or {}).get('name') == 'erase']
-    if len(sinks) < 3:
-        raise AnalysisBroken('C07.R2: completion sites not found in handleStanza')
+    if not any((fn.sym(fn.nodes[i]) or {}).get('name') == 'finish' for i in sinks):
+        raise AnalysisBroken('C07.R2: completion site (promise.finish) not found in handleStanza')
     TAG = 'p0.QDomElement::tagName()'
     TYPE = 'p0.QDomElement::attribute("type")'
     FROM = 'p0.QDomElement::attribute("from")'
@@ -171,34 +171,42 @@ def r2(prog, run):
                and n.get('obj') is not None and st_fn.nodes[st_fn.skip(n['obj'])].get('f') == REQ]
     if not emplace:
         raise AnalysisBroken('C07.R2: start() no longer emplaces into m_requests')
-    for label, bind in (('an empty or duplicate id', {IQM + '::isIdValid': False}),):
+    def id_case(kind):
+        """abstract request: 'empty' id / id that is already 'outstanding' / 'fresh' id; to_empty: no addressee"""
+        def custom(f, nid, s, kind=kind):
+            n = f.nodes[nid]
+            if n['k'] == 'call':
+                cn = f.cname(n)
+                sy = f.sym(n) or {}
+                if cn == 'QString::isEmpty' and n.get('obj') is not None:
+                    o = f.nodes[f.skip(n['obj'])]
+                    if o['k'] == 'var' and o.get('pidx') == 0:
+                        return (kind[0] == 'empty',)
+                    if o['k'] == 'var' and o.get('pidx') == 1:
+                        return (kind[1],)
+                if cn == IQM + '::hasId':
+                    return (kind[0] == 'outstanding',)
+                if sy.get('name') in ('contains', 'count') and n.get('obj') is not None and f.nodes[f.skip(n['obj'])].get('f') == REQ:
+                    return (kind[0] == 'outstanding',)
+            bo = f.binop(nid)
+            if bo and bo[0] in ('==', '!='):
+                a, b = f.fmt(bo[1]), f.fmt(bo[2])
+                if any('::find(' in x and 'm_requests' in x for x in (a, b)) and any(x.endswith('::end()') for x in (a, b)):
+                    return ((bo[0] == '==') != (kind[0] == 'outstanding'),)
+            return None
+        ev = cfgx.Evaluator(st_fn, {}, custom=custom)
+        return lambda f, c, s: ev.ev(c, s)
+    for kind, label, key in ((('empty', False), 'an empty id', 'start#accepts-invalid-id'), (('outstanding', False), 'an id that is already outstanding', 'start#accepts-invalid-id'),
+                             (('fresh', True), 'no addressee', 'start#accepts-empty-addressee')):
         run.instance(rid)
-        ev = cfgx.Evaluator(st_fn, bind)
-        res = cfgx.sink_reachability(st_fn, lambda f, c, s: ev.ev(c, s), emplace)
+        res = cfgx.sink_reachability(st_fn, id_case(kind), emplace)
         if any(res[e] is not None for e in emplace):
-            run.violation(rid, 'start#accepts-invalid-id', st_fn.loc(), 'a request with %s is entered into the table' % label)
+            run.violation(rid, key, st_fn.loc(), 'a request with %s is entered into the table%s' % (label, ' (any sender could answer it)' if kind[1] else ''))
         else:
             run.ok(rid, st_fn.loc(), '%s: rejected before the table is touched' % label)
-    run.instance(rid)
-
-    def empty_to(f, nid, s):
-        n = f.nodes[nid]
-        if n['k'] == 'call' and f.cname(n) == 'QString::isEmpty' and n.get('obj') is not None and f.fmt(n['obj']) == 'p1':
-            return (True,)
-        return None
-    ev = cfgx.Evaluator(st_fn, {IQM + '::isIdValid': True}, custom=empty_to)
-    res = cfgx.sink_reachability(st_fn, lambda f, c, s: ev.ev(c, s), emplace)
-    if any(res[e] is not None for e in emplace):
-        run.violation(rid, 'start#accepts-empty-addressee', st_fn.loc(), 'a request without addressee is entered (any sender could answer it)')
-    else:
-        run.ok(rid, st_fn.loc(), 'empty addressee: rejected')
-    run.instance(rid)
-    valid = prog.fn(IQM + '::isIdValid')
-    txt = ' '.join(valid.fmt(n['e']) for _, n in valid.returns() if 'e' in n)
-    if 'QString::isEmpty' in txt and 'hasId' in txt and txt.count('!') >= 2 and '&&' in txt:
-        run.ok(rid, valid.loc(), 'isIdValid = !empty && !hasId')
-    else:
-        run.violation(rid, 'isIdValid#shape', valid.loc(), 'id validity is no longer "non-empty and unused": %s' % txt[:100])
+    res = cfgx.sink_reachability(st_fn, id_case(('fresh', False)), emplace)
+    if not any(res[e] is not None for e in emplace):
+        raise AnalysisBroken('C07.R2: start() does not register even a well-formed request (model does not fit the code)')
     run.instance(rid)
     send = prog.fn(OC + '::sendIq', pick=lambda f: len(f.params) == 1)
     okto = False
@@ -267,10 +275,16 @@ def r3(prog, run):
     send = prog.fn(IQM + '::sendIq', pick=lambda f: len(f.params) == 3)
     run.instance(rid)
     ok = False
-    for l in prog.lambdas_in(send):
+    cand = list(prog.lambdas_in(send))
+    for l in list(cand):
+        for i, n in l.calls():
+            for g in prog.callee_fns(l, n):
+                if (g.record or '').endswith('OutgoingIqManager') and g.name not in ('finish', 'start', 'sendIq'):
+                    cand.append(g)     # the continuation forwards to a member function
+    for l in cand:
         for i, n in l.calls(IQM + '::finish'):
             atoms = [(l.fmt(c), p) for c, p in l.atomic_assertions_at(i)]
-            if any('QXmppError' in t and 'holds_alternative' in t and p is True for t, p in atoms):
+            if any('QXmppError' in t and ('holds_alternative' in t or 'get_if' in t) and p is True for t, p in atoms):
                 ok = True
     if ok:
         run.ok(rid, send.loc(), 'a send error completes the request through finish(id, error)')
